@@ -178,6 +178,22 @@ def fromTdf (bytes : List Nat) : Res (List TdfFont) :=
         | [] => .panic
     | [] => .err
 
+/-! ### the glyph presence table -/
+/-- `has_char(char_code: u8)`: `char_offset = char_code - b' ' - 1`; negative or `> char_table.len()` → false.  The guard is
+    off by one: offset = `len` (code 127 for the 94-entry table) passes it and indexes out of range — a panic, copied. -/
+def hasChar (f : TdfFont) (code : Nat) : Res Bool :=
+  let off : Int := (code : Int) - 32 - 1
+  if off < 0 ∨ off > (f.table.length : Int) then .ok false
+  else match f.table[off.toNat]? with
+    | some g => .ok g.isSome
+    | none => .panic
+
+/-- `get_font_height`: the height of the first defined glyph, 0 without glyphs -/
+def fontHeight (f : TdfFont) : Int :=
+  match f.table.filterMap id with
+  | g :: _ => g.h
+  | [] => 0
+
 /-! ### decidable well-formedness: the domain of the round-trip theorems (`Props/C17.lean: WfTdf`) -/
 /-- colour glyph data: a sequence of CR bytes and (character ≠ 0, attribute) pairs -/
 def colorWfB : List Nat → Bool
